@@ -5,6 +5,7 @@ import (
 	"math"
 	"sort"
 
+	"github.com/sahandsafizadeh/qeep/component/optimizers"
 	"github.com/sahandsafizadeh/qeep/tensor"
 
 	"qeepverif/internal/fw"
@@ -299,6 +300,12 @@ func (h *c08hist) last() string {
 		return fmt.Sprintf("%s%v -> tensor %d", a.Instr.Op, a.Instr.In, len(h.nodes)-1)
 	case "backprop":
 		return fmt.Sprintf("BackPropagate(tensor %d)", a.Target)
+	case "sgd":
+		return fmt.Sprintf("SGD.Update(tensor %d)", a.Target)
+	case "adopt-gradient":
+		return fmt.Sprintf("tensor %d.Gradient().ResetGradContext(%v)", a.Target, a.Flag)
+	case "reject":
+		return fmt.Sprintf("a refused call on tensor %d", a.Target)
 	}
 	return fmt.Sprintf("tensor %d.ResetGradContext(%v)", a.Target, a.Flag)
 }
@@ -481,6 +488,45 @@ func (h *c08hist) doAdopt(x int, flag bool) bool {
 	h.nodes = append(h.nodes, &c08node{in: ref.Instr{Op: "leaf", Shape: val.Shape, Data: val.Data, Tracked: flag}, val: val, tracked: flag, leaf: true, real: g})
 	k.Count("adopted_gradient_tensors", 1)
 	h.flags["reset"] = true
+	return h.observe(len(h.actions), nil)
+}
+
+// doSGD: an optimizer step on an existing tensor that holds a gradient. The step yields a NEW tensor (registered as a tensor of
+// the history: computed from a spent tensor, hence untracked and spent); the stepped tensor, its gradient and every other tensor
+// stay exactly as they were - observe() and the registry re-read decide that.
+func (h *c08hist) doSGD(x int, zeroRate bool) bool {
+	k := h.k
+	n := h.nodes[x]
+	if n.grad == nil || n.real.Gradient() == nil {
+		return true
+	}
+	lr := 0.125
+	if zeroRate {
+		lr = 0
+	}
+	opt := optimizers.NewSGD(&optimizers.SGDConfig{LearningRate: lr})
+	h.actions = append(h.actions, c08action{Kind: "sgd", Target: x, Flag: zeroRate})
+	w := n.real
+	var err error
+	if p := call(func() { err = opt.Update(&w) }); p != nil || err != nil {
+		k.Failf("step %d: SGD.Update(tensor %d): panic=%v err=%v", len(h.actions), x, p, err)
+		return false
+	}
+	if w == nil {
+		k.Failf("step %d: SGD.Update(tensor %d) put nil behind the pointer", len(h.actions), x)
+		return false
+	}
+	if w == n.real { // allowed when lr*g is zero everywhere (nothing says the tensor must be a new object): then nothing at all may have changed
+		k.Count("optimizer_steps_that_kept_the_same_object", 1)
+		return h.observe(len(h.actions), nil)
+	}
+	val, err := rt.Read(w)
+	if err != nil || !ref.SameShape(val.Shape, n.val.Shape) {
+		k.Failf("step %d: the tensor produced by SGD.Update(tensor %d) is unreadable or of shape %v (%v)", len(h.actions), x, val, err)
+		return false
+	}
+	h.nodes = append(h.nodes, &c08node{in: ref.Instr{Op: "leaf", Shape: val.Shape, Data: val.Data}, val: val, spent: n.spent, leaf: !n.spent, real: w})
+	k.Count("optimizer_steps_on_existing_tensors", 1)
 	return h.observe(len(h.actions), nil)
 }
 
